@@ -539,5 +539,19 @@ func (p *Pool) Solve(as []*Term, vars []*Term) (string, Model, string) {
 		fmt.Fprintf(os.Stderr, "  slow query: %s %s %.1fs\n", kind, r, d.Seconds())
 	}
 	p.Put(s)
+	if r != "sat" && r != "unsat" && kind == BVSolver && os.Getenv("VERIF_NO_FALLBACK") == "" {
+		// portfolio: a bit-vector query that z3 does not decide within its timeout is given to cvc5 (another bit-blaster,
+		// another SAT back end) once, with the same timeout, before it is reported as unknown
+		s2 := p.Get("cvc5")
+		t1 := time.Now()
+		r2, m2 := s2.Check(as, vars)
+		if os.Getenv("VERIF_PROGRESS") != "" {
+			fmt.Fprintf(os.Stderr, "  fallback query: cvc5 %s %.1fs (after %s %s)\n", r2, time.Since(t1).Seconds(), kind, r)
+		}
+		p.Put(s2)
+		if r2 == "sat" || r2 == "unsat" {
+			return r2, m2, "cvc5"
+		}
+	}
 	return r, m, kind
 }
